@@ -1,12 +1,20 @@
 """
 Fragments of the Coq development regenerated from /repo (and boolean.py) on every run.
 Each translator is fail-closed: an unsupported construct raises. regenerate() returns the list of
-generated files whose text changed.
+generated files whose text changed. The tie files coq/Tie/*.v prove the generated fragments equal
+to (or sufficient for) what the model and the proofs use.
 """
+import ast
 import os
+import re
 
 VERIF = os.path.dirname(os.path.dirname(os.path.abspath(__file__)))
 GEN = os.path.join(VERIF, 'coq', 'gen')
+REPO_SRC = '/repo/src/license_expression'
+
+
+class Unsupported(Exception):
+    pass
 
 
 def write_if_changed(name, text):
@@ -25,6 +33,315 @@ def write_if_changed(name, text):
     return False
 
 
+def coq_str(s):
+    """A Python string as a Coq list of code points (type str of the model)."""
+    return '[' + '; '.join('%d' % ord(c) for c in s) + ']%N'
+
+
+def boolean_py_path():
+    import boolean.boolean as b
+    return b.__file__
+
+
+def module_ast(path):
+    with open(path) as f:
+        return ast.parse(f.read(), path)
+
+
+def find_class(tree, name):
+    for n in tree.body:
+        if isinstance(n, ast.ClassDef) and n.name == name:
+            return n
+    raise Unsupported('class %s not found' % name)
+
+
+def find_func(node, name):
+    for n in node.body:
+        if isinstance(n, ast.FunctionDef) and n.name == name:
+            return n
+    raise Unsupported('function %s not found' % name)
+
+
+def module_consts(tree):
+    """Top-level NAME = <int or str constant> assignments."""
+    out = {}
+    for n in tree.body:
+        if isinstance(n, ast.Assign) and len(n.targets) == 1 and isinstance(n.targets[0], ast.Name):
+            if isinstance(n.value, ast.Constant) and isinstance(n.value.value, (int, str)):
+                out[n.targets[0].id] = n.value.value
+    return out
+
+
+# ---------------------------------------------------------------- gen/ThreadProg.v
+
+def is_self_attr(n, attr):
+    return isinstance(n, ast.Attribute) and n.attr == attr and isinstance(n.value, ast.Name) and n.value.id == 'self'
+
+
+def calls_any(node, names):
+    for c in ast.walk(node):
+        if isinstance(c, ast.Call):
+            f = c.func
+            if isinstance(f, ast.Name) and f.id in names:
+                return True
+            if isinstance(f, ast.Attribute) and f.attr == 'add' and isinstance(f.value, ast.Name) and f.value.id in names:
+                return True
+    return False
+
+
+def tr_threadprog():
+    tree = module_ast(os.path.join(REPO_SRC, '__init__.py'))
+    fn = find_func(find_class(tree, 'Licensing'), 'get_advanced_tokenizer')
+    body = list(fn.body)
+    if body and isinstance(body[0], ast.Expr) and isinstance(body[0].value, ast.Constant):
+        body = body[1:]
+    prog = []
+    local = None          # name of the local tokenizer variable
+    adders = set()        # local aliases of tokenizer.add
+    for st in body:
+        if isinstance(st, ast.If):
+            t = st.test
+            ok = (isinstance(t, ast.Compare) and is_self_attr(t.left, 'advanced_tokenizer') and len(t.ops) == 1
+                  and isinstance(t.ops[0], ast.IsNot) and isinstance(t.comparators[0], ast.Constant)
+                  and t.comparators[0].value is None and not st.orelse and len(st.body) == 1
+                  and isinstance(st.body[0], ast.Return) and is_self_attr(st.body[0].value, 'advanced_tokenizer'))
+            if not ok:
+                raise Unsupported('get_advanced_tokenizer: unsupported if statement at line %d' % st.lineno)
+            prog.append('IRead')
+        elif isinstance(st, ast.Assign):
+            v = st.value
+            if isinstance(v, ast.Call) and isinstance(v.func, ast.Name) and v.func.id == 'AdvancedTokenizer' and not v.args:
+                prog.append('IAlloc')
+                for tg in st.targets:      # Python assigns the targets from left to right
+                    if isinstance(tg, ast.Name):
+                        local = tg.id
+                    elif is_self_attr(tg, 'advanced_tokenizer'):
+                        prog.append('IPublish')
+                    else:
+                        raise Unsupported('get_advanced_tokenizer: unsupported assignment target at line %d' % st.lineno)
+            elif (len(st.targets) == 1 and isinstance(st.targets[0], ast.Name) and isinstance(v, ast.Attribute)
+                  and v.attr == 'add' and isinstance(v.value, ast.Name) and v.value.id == local):
+                adders.add(st.targets[0].id)
+            elif (len(st.targets) == 1 and is_self_attr(st.targets[0], 'advanced_tokenizer')
+                  and isinstance(v, ast.Name) and v.id == local):
+                prog.append('IPublish')
+            else:
+                raise Unsupported('get_advanced_tokenizer: unsupported assignment at line %d' % st.lineno)
+        elif isinstance(st, ast.For):
+            if not calls_any(st, adders | ({local} if local else set())):
+                raise Unsupported('get_advanced_tokenizer: loop at line %d does not add names' % st.lineno)
+            if any(isinstance(x, ast.Assign) and any(is_self_attr(t, 'advanced_tokenizer') for t in x.targets)
+                   for x in ast.walk(st)):
+                raise Unsupported('get_advanced_tokenizer: loop at line %d writes the shared slot' % st.lineno)
+            prog.append('IAdd')
+        elif isinstance(st, ast.Expr) and isinstance(st.value, ast.Call):
+            f = st.value.func
+            if isinstance(f, ast.Attribute) and f.attr == 'make_automaton' and isinstance(f.value, ast.Name) and f.value.id == local:
+                prog.append('IFinalize')
+            else:
+                raise Unsupported('get_advanced_tokenizer: unsupported call at line %d' % st.lineno)
+        elif isinstance(st, ast.Return):
+            if isinstance(st.value, ast.Name) and st.value.id == local:
+                prog.append('IReturn')
+            elif is_self_attr(st.value, 'advanced_tokenizer'):
+                prog.append('IReturn')
+            else:
+                raise Unsupported('get_advanced_tokenizer: unsupported return at line %d' % st.lineno)
+        else:
+            raise Unsupported('get_advanced_tokenizer: unsupported statement %s at line %d' % (type(st).__name__, st.lineno))
+    return ('(* generated from Licensing.get_advanced_tokenizer in /repo/src/license_expression/__init__.py; do not edit *)\n'
+            'Require Import Model.Base Model.Threads.\n'
+            'Definition thread_prog : prog := [%s].\n' % '; '.join(prog))
+
+
+# ---------------------------------------------------------------- gen/Consts.v
+
+def tr_consts():
+    le = module_ast(os.path.join(REPO_SRC, '__init__.py'))
+    bo = module_ast(boolean_py_path())
+    lc, bc = module_consts(le), module_consts(bo)
+    lines = ['(* generated from license_expression/__init__.py and boolean/boolean.py; do not edit *)',
+             'Require Import Model.Base.', 'Open Scope N_scope.']
+    for name in ('PARSE_UNKNOWN_TOKEN', 'PARSE_UNBALANCED_CLOSING_PARENS', 'PARSE_INVALID_EXPRESSION',
+                 'PARSE_INVALID_NESTING', 'PARSE_INVALID_SYMBOL_SEQUENCE', 'PARSE_INVALID_OPERATOR_SEQUENCE'):
+        if name not in bc or not isinstance(bc[name], int):
+            raise Unsupported('boolean.py: constant %s not found' % name)
+        lines.append('Definition g_%s : N := %d.' % (name, bc[name]))
+    for name in ('PARSE_EXPRESSION_NOT_UNICODE', 'PARSE_INVALID_EXCEPTION', 'PARSE_INVALID_SYMBOL_AS_EXCEPTION',
+                 'PARSE_INVALID_SYMBOL'):
+        if name not in lc or not isinstance(lc[name], int):
+            raise Unsupported('license_expression: constant %s not found' % name)
+        lines.append('Definition g_%s : N := %d.' % (name, lc[name]))
+    # keywords: KW_x = Keyword('text', TOKEN_y)
+    kws = {}
+    for n in le.body:
+        if (isinstance(n, ast.Assign) and len(n.targets) == 1 and isinstance(n.targets[0], ast.Name)
+                and n.targets[0].id.startswith('KW_') and isinstance(n.value, ast.Call)
+                and isinstance(n.value.func, ast.Name) and n.value.func.id == 'Keyword'):
+            a = n.value.args
+            if len(a) != 2 or not isinstance(a[0], ast.Constant) or not isinstance(a[1], ast.Name):
+                raise Unsupported('keyword definition at line %d' % n.lineno)
+            kws[n.targets[0].id] = (a[0].value, a[1].id)
+    want = {'KW_AND': 'TOKEN_AND', 'KW_OR': 'TOKEN_OR', 'KW_LPAR': 'TOKEN_LPAR', 'KW_RPAR': 'TOKEN_RPAR', 'KW_WITH': 'TOKEN_WITH'}
+    for k, tokname in want.items():
+        if k not in kws or kws[k][1] != tokname:
+            raise Unsupported('keyword %s is not bound to %s' % (k, tokname))
+        lines.append('Definition g_%s : str := %s.' % (k, coq_str(kws[k][0])))
+    # KEYWORDS tuple must list exactly these five
+    for n in le.body:
+        if isinstance(n, ast.Assign) and isinstance(n.targets[0], ast.Name) and n.targets[0].id == 'KEYWORDS':
+            names = sorted(e.id for e in n.value.elts)
+            if names != sorted(want):
+                raise Unsupported('KEYWORDS is %r' % names)
+    # operator strings of AND / OR
+    for cls, name in (('AND', 'g_op_and'), ('OR', 'g_op_or')):
+        init = find_func(find_class(le, cls), '__init__')
+        val = None
+        for st in ast.walk(init):
+            if (isinstance(st, ast.Assign) and is_self_attr(st.targets[0], 'operator') and isinstance(st.value, ast.Constant)):
+                val = st.value.value
+        if val is None:
+            raise Unsupported('%s.operator not found' % cls)
+        lines.append('Definition %s : str := %s.' % (name, coq_str(val)))
+    # the three regular expressions, as texts
+    def regex_text(tree, varname):
+        for n in tree.body:
+            if isinstance(n, ast.Assign) and isinstance(n.targets[0], ast.Name) and n.targets[0].id == varname:
+                for c in ast.walk(n.value):
+                    if isinstance(c, ast.Call) and isinstance(c.func, ast.Attribute) and c.func.attr == 'compile':
+                        if isinstance(c.args[0], ast.Constant):
+                            return re.sub(r'\s+', '', c.args[0].value)
+        raise Unsupported('regular expression %s not found' % varname)
+    ac = module_ast(os.path.join(REPO_SRC, '_pyahocorasick.py'))
+    lines.append('Definition g_re_tokenizer : str := %s.' % coq_str(regex_text(ac, '_tokenizer')))
+    lines.append('Definition g_re_simple_tokenizer : str := %s.' % coq_str(regex_text(le, '_simple_tokenizer')))
+    lines.append('Definition g_re_valid_key : str := %s.' % coq_str(regex_text(le, 'is_valid_license_key')))
+    # precedence in BooleanAlgebra.parse and the sort orders
+    parse = find_func(find_class(bo, 'BooleanAlgebra'), 'parse')
+    prec = None
+    for st in ast.walk(parse):
+        if isinstance(st, ast.Assign) and isinstance(st.targets[0], ast.Name) and st.targets[0].id == 'precedence':
+            d = st.value
+            prec = {}
+            for k, v in zip(d.keys, d.values):
+                kn = k.attr if isinstance(k, ast.Attribute) else k.id
+                prec[kn] = v.value
+    if not prec or set(prec) != {'NOT', 'AND', 'OR', 'TOKEN_LPAR'}:
+        raise Unsupported('precedence table %r' % (prec,))
+    lines.append('Definition g_prec_and : nat := %d%%nat.' % prec['AND'])
+    lines.append('Definition g_prec_or : nat := %d%%nat.' % prec['OR'])
+    lines.append('Definition g_prec_lpar : nat := %d%%nat.' % prec['TOKEN_LPAR'])
+    for cls, name in (('Symbol', 'g_order_symbol'), ('AND', 'g_order_and'), ('OR', 'g_order_or')):
+        init = find_func(find_class(bo, cls), '__init__')
+        val = None
+        for st in ast.walk(init):
+            if isinstance(st, ast.Assign) and is_self_attr(st.targets[0], 'sort_order') and isinstance(st.value, ast.Constant):
+                val = st.value.value
+        if val is None:
+            raise Unsupported('%s.sort_order not found' % cls)
+        lines.append('Definition %s : nat := %d%%nat.' % (name, val))
+    return '\n'.join(lines) + '\n'
+
+
+# ---------------------------------------------------------------- gen/Preds.v
+
+def expr_to_coq(e, env):
+    """Integer / boolean expressions over self.start/end, other.start/end and local names."""
+    if isinstance(e, ast.Attribute) and isinstance(e.value, ast.Name) and e.value.id in ('self', 'other', 's') and e.attr in ('start', 'end'):
+        who = 'a' if e.value.id in ('self', 's') else 'b'
+        return '(%s%s)' % (who, 's' if e.attr == 'start' else 'e')
+    if isinstance(e, ast.Name):
+        if e.id in env:
+            return env[e.id]
+        raise Unsupported('name %s' % e.id)
+    if isinstance(e, ast.Constant) and isinstance(e.value, int) and not isinstance(e.value, bool):
+        return '(%d)' % e.value
+    if isinstance(e, ast.BinOp) and isinstance(e.op, (ast.Add, ast.Sub, ast.Mult)):
+        op = {ast.Add: '+', ast.Sub: '-', ast.Mult: '*'}[type(e.op)]
+        return '(%s %s %s)' % (expr_to_coq(e.left, env), op, expr_to_coq(e.right, env))
+    if isinstance(e, ast.UnaryOp) and isinstance(e.op, ast.USub):
+        return '(- %s)' % expr_to_coq(e.operand, env)
+    if isinstance(e, ast.UnaryOp) and isinstance(e.op, ast.Not):
+        return '(negb %s)' % expr_to_coq(e.operand, env)
+    if isinstance(e, ast.BoolOp):
+        op = '&&' if isinstance(e.op, ast.And) else '||'
+        return '(' + (' %s ' % op).join(expr_to_coq(v, env) for v in e.values) + ')'
+    if isinstance(e, ast.Compare):
+        parts = []
+        left = e.left
+        for op, right in zip(e.ops, e.comparators):
+            sym = {ast.Lt: '<?', ast.LtE: '<=?', ast.Eq: '=?'}.get(type(op))
+            l, r = expr_to_coq(left, env), expr_to_coq(right, env)
+            if sym:
+                parts.append('(%s %s %s)' % (l, sym, r))
+            elif isinstance(op, ast.Gt):
+                parts.append('(%s <? %s)' % (r, l))
+            elif isinstance(op, ast.GtE):
+                parts.append('(%s <=? %s)' % (r, l))
+            else:
+                raise Unsupported('comparison %s' % type(op).__name__)
+            left = right
+        return '(' + ' && '.join(parts) + ')'
+    if isinstance(e, ast.Call) and isinstance(e.func, ast.Name) and e.func.id == 'len' and len(e.args) == 1:
+        a = e.args[0]
+        if isinstance(a, ast.Name) and a.id in ('self', 's'):
+            return '(g_len as_ ae)'
+        if isinstance(a, ast.Name) and a.id == 'other':
+            return '(g_len bs be)'
+    raise Unsupported('expression %s' % ast.dump(e)[:80])
+
+
+def method_return(fn):
+    """The method body as local integer assignments followed by one return."""
+    env = {}
+    body = [s for s in fn.body if not (isinstance(s, ast.Expr) and isinstance(s.value, ast.Constant))]
+    for st in body[:-1]:
+        if isinstance(st, ast.Assign) and len(st.targets) == 1 and isinstance(st.targets[0], ast.Name):
+            env[st.targets[0].id] = expr_to_coq(st.value, env)
+        else:
+            raise Unsupported('%s: statement %s' % (fn.name, type(st).__name__))
+    if not isinstance(body[-1], ast.Return):
+        raise Unsupported('%s: no final return' % fn.name)
+    return expr_to_coq(body[-1].value, env)
+
+
+def tr_preds():
+    ac = module_ast(os.path.join(REPO_SRC, '_pyahocorasick.py'))
+    tok = find_class(ac, 'Token')
+    sub = lambda s: s.replace('(as)', 'as_').replace('(ae)', 'ae').replace('(bs)', 'bs').replace('(be)', 'be')
+    lines = ['(* generated from the Token methods of /repo/src/license_expression/_pyahocorasick.py; do not edit *)',
+             'From Coq Require Import ZArith Bool.', 'Open Scope Z_scope.']
+    lines.append('Definition g_len (as_ ae : Z) : Z := %s.' % sub(method_return(find_func(tok, '__len__'))))
+    for py, name in (('is_after', 'g_is_after'), ('is_before', 'g_is_before'), ('__contains__', 'g_contains'), ('overlap', 'g_overlap')):
+        lines.append('Definition %s (as_ ae bs be : Z) : bool := %s.' % (name, sub(method_return(find_func(tok, py)))))
+    # the sort key: key = lambda s: (s.start, -len(s),)
+    srt = find_func(tok, 'sort')
+    key = None
+    for st in ast.walk(srt):
+        if isinstance(st, ast.Lambda):
+            if not isinstance(st.body, ast.Tuple) or len(st.body.elts) != 2:
+                raise Unsupported('sort key')
+            key = [sub(expr_to_coq(x, {})) for x in st.body.elts]
+    if not key:
+        raise Unsupported('sort key lambda not found')
+    lines.append('Definition g_sort_key (as_ ae : Z) : Z * Z := (%s, %s).' % (key[0], key[1]))
+    # filter_overlapping: which comparison decides a length tie
+    fo = find_func(ac, 'filter_overlapping')
+    tie = None
+    for st in ast.walk(fo):
+        if isinstance(st, ast.Compare) and isinstance(st.left, ast.Call) and getattr(st.left.func, 'id', '') == 'len':
+            a, b = st.left.args[0].id, st.comparators[0].args[0].id
+            op = type(st.ops[0]).__name__
+            tie = (a, op, b)
+    if tie != ('curr_tok', 'GtE', 'next_tok'):
+        raise Unsupported('filter_overlapping length comparison is %r' % (tie,))
+    lines.append('Definition g_keep_curr (lcurr lnext : Z) : bool := (lnext <=? lcurr).')
+    return '\n'.join(lines) + '\n'
+
+
+TRANSLATORS = [('ThreadProg.v', tr_threadprog), ('Consts.v', tr_consts), ('Preds.v', tr_preds)]
+
+
 def regenerate():
     changed = []
     for name, fn in TRANSLATORS:
@@ -33,4 +350,5 @@ def regenerate():
     return changed
 
 
-TRANSLATORS = []
+if __name__ == '__main__':
+    print(regenerate())
